@@ -1039,3 +1039,109 @@ def rule_tyrule(ctx):
           [("owner-of", "d"), chk("scrutinee", BASE, "decl:OWNER"), ("args", BASE, (("p", "Prd", "decl:TP"),)), eq(EXP, "decl:RET")])
     res.require_floor(18)
     return res
+
+
+def rule_tywf(ctx):
+    """R-TYWF: a type taken from the program or from a signature is checked for well-formedness (which creates its instance) before
+    a term is checked against it"""
+    fx = ctx.fx
+    res = RuleResult("R-TYWF", "in the Fun type checker every call `t.check(symbol_table, context, &T)` whose expected type T is not the "
+                     "caller's own `expected` parameter, not i64 and not an instance just found in or created for the symbol table - "
+                     "i.e. T is written in the program (a let annotation, a return type) or is the instantiated parameter type of a "
+                     "signature - is dominated by a well-formedness check of the same T (Ty::check, directly or through "
+                     "check_equality). Ty::check is what creates the monomorphic instance; terms such as `exit` and `goto` are typed "
+                     "without looking at T, so without the check a program is accepted whose Core uses a type that is never declared")
+
+    def establishes(t):
+        ck = t.get("resolved_key") or t.get("callee_key") or ""
+        nm = t.get("callee_name")
+        if nm == "check" and "types::Ty" in ck and not (t.get("callee_trait") or "").endswith("typing::check::Check"):
+            return [0]
+        if nm == "check_equality" and ck.startswith("fun::"):
+            return [len(t["args"]) - 2, len(t["args"]) - 1]
+        # a helper of the checker that does one of the two on its own parameter (one level)
+        g = fx.fns.get(ck)
+        if g and g["crate"] == "fun" and "{" not in ck and not (g.get("impl_trait") or "").endswith("typing::check::Check"):
+            gfn = Fn(g)
+            gflow = Flow(gfn)
+            out = []
+            for _, t2 in gfn.calls():
+                if t2.get("callee_name") == "check" and "types::Ty" in (t2.get("resolved_key") or t2.get("callee_key") or "") and t2["args"]:
+                    r2 = op_root(t2["args"][0])
+                    for o in (gflow.origins(r2, tuple(place_fields(t2["args"][0]["pl"]))) if r2 is not None else ()):
+                        if o[0] == "arg" and not o[2] and o[1] - 1 < len(t["args"]):
+                            out.append(o[1] - 1)
+            return out
+        return []
+    n = 0
+    for k, f in sorted(fx.fns.items()):
+        if f["crate"] != "fun" or "{promoted" in k:
+            continue
+        fn = None
+        for bi, b in enumerate(f["blocks"]):
+            t = b["term"]
+            if not (t["k"] == "call" and t.get("callee_name") == "check" and (t.get("callee_trait") or "").endswith("typing::check::Check") and len(t["args"]) == 4):
+                continue
+            fn = fn or Fn(f)
+            if bi not in fn.reach:
+                continue
+            flow = Flow(fn)
+            a = t["args"][3]
+            r = op_root(a)
+            if r is None:
+                continue
+            org = flow.origins(r, tuple(place_fields(a["pl"])))
+            is_impl = (f.get("impl_trait") or "").endswith("typing::check::Check")
+            # the caller's own `expected` (argument 4 of Check::check), i64, or an instance out of the symbol table
+            supplied = set()
+            for o in org:
+                if o[0] == "arg" and is_impl and o[1] == 4:
+                    continue
+                if o[0] == "arg":
+                    supplied.add(("arg", o[1], tuple(o[2])))
+                elif o[0] == "call":
+                    tc = fn.term(o[1])
+                    nm = tc.get("callee_name")
+                    if nm == "next" and tc["args"]:
+                        # an element of a sequence: of which parameter?
+                        work, seen_l = [op_root(tc["args"][0])], set()
+                        while work:
+                            l0 = work.pop()
+                            if l0 is None or l0 in seen_l:
+                                continue
+                            seen_l.add(l0)
+                            for o2 in flow.origins(l0, ()):
+                                if o2[0] == "arg":
+                                    supplied.add(("elem", o2[1]))
+                                elif o2[0] == "call" and fn.term(o2[1]).get("callee_name") in ("zip", "chain", "into_iter", "iter", "enumerate", "rev", "skip", "take", "cloned", "copied", "peekable", "by_ref"):
+                                    work.extend(op_root(a_) for a_ in fn.term(o2[1])["args"])
+                    # everything else is a value a function returned: mk_i64, a lookup in the symbol table or the context
+            if not supplied:
+                continue
+            n += 1
+            ikey = "%s@check:%d" % (k, sum(1 for b2 in f["blocks"][:bi] if b2["term"]["k"] == "call" and b2["term"].get("callee_name") == "check"))
+            ok = False
+            for bj, t2 in fn.calls():
+                if bj == bi or not fn.dominates(bj, bi):
+                    continue
+                for ai in establishes(t2):
+                    if ai < 0 or ai >= len(t2["args"]):
+                        continue
+                    r2 = op_root(t2["args"][ai])
+                    if r2 is None:
+                        continue
+                    org2 = flow.origins(r2, tuple(place_fields(t2["args"][ai]["pl"])))
+                    if org2 & org:
+                        ok = True
+            what = ", ".join(sorted("parameter %d%s" % (s[1], "." + ".".join(s[2]) if len(s) > 2 and s[2] else "") if s[0] == "arg" else "an element of parameter %d" % s[1] for s in supplied))
+            if ok:
+                res.inst(ikey, t["sp"]["file"], t["sp"]["line"], "ok", "expected type from %s: well-formedness checked first" % what)
+            else:
+                res.inst(ikey, t["sp"]["file"], t["sp"]["line"], "violation")
+                res.violate(ikey, "%s checks a term against a type taken from %s without first checking that type for well-formedness (Ty::check / "
+                            "check_equality): its instance may never be created, and a term that does not inspect its expected type (exit, goto) "
+                            "is accepted at a type the compiled program does not declare" % (k.split(" as ")[0].lstrip("<").split("::")[-1] if " as " in k else k.split("::")[-1], what),
+                            t["sp"]["file"], t["sp"]["line"])
+    if n < 2:
+        raise AnalysisError("R-TYWF: only %d checks against a supplied type found (let annotation, return type, argument lists expected)" % n)
+    return res
